@@ -655,6 +655,10 @@ func (s *PersistentHybridIndex) Flush() error {
 	}
 	s.mu.RUnlock()
 
+	// Documents in the active memtable are acknowledged too: freeze it so that
+	// this flush persists them as well.
+	s.memtableQueue.rotateIfNotEmpty()
+
 	return s.flushMemtables()
 }
 
@@ -810,7 +814,8 @@ func (s *PersistentHybridIndex) flushWorker() {
 				fmt.Printf("flush error: %v\n", err)
 			}
 		case <-s.closeChan:
-			// Final flush before closing
+			// Final flush before closing (including the active memtable)
+			s.memtableQueue.rotateIfNotEmpty()
 			s.flushMemtables()
 			return
 		}
